@@ -359,7 +359,7 @@ Qed.
 
 Lemma hdr_array_intro : forall m alen dl dims p,
   m mod 64 <= 25 -> bit m 7 = true -> -1 <= alen <= max_variant_array_length ->
-  dl = zlen dims -> dl <= max_int32 -> forallb dim_ok dims = true -> (bit m 6 = false -> dims = []) ->
+  dl = zlen dims -> dl <= max_variant_array_dimensions -> forallb dim_ok dims = true -> (bit m 6 = false -> dims = []) ->
   (0 < dl -> dims_product dims 1 = Some alen) ->
   (if dl <? 2 then (if alen =? -1 then match p with VSlice None => true | _ => false end else shape_ok [Z.to_nat alen] p)
    else shape_ok (map Z.to_nat dims) p) = true ->
@@ -372,7 +372,7 @@ Proof.
   replace (alen <=? max_variant_array_length) with true by (symmetry; apply Z.leb_le; lia). cbn [andb].
   destruct (bit m 6).
   - rewrite Hge. replace (dl =? zlen dims) with true by (symmetry; apply Z.eqb_eq; exact Hdl).
-    replace (dl <=? max_int32) with true by (symmetry; apply Z.leb_le; exact Hmax). cbn [andb].
+    replace (dl <=? max_variant_array_dimensions) with true by (symmetry; apply Z.leb_le; exact Hmax). cbn [andb].
     destruct (0 <? dl) eqn:E; [|reflexivity]. apply Z.ltb_lt in E. rewrite (Hprod E), Z.eqb_refl. reflexivity.
   - rewrite (Hnil eq_refl) in *. cbn in Hdl. subst dl. reflexivity.
 Qed.
@@ -384,19 +384,20 @@ Proof.
 Qed.
 
 Lemma post_variant_dims : forall mask,
-  post (fun dd => fst dd = zlen (snd dd) /\ fst dd <= max_int32 /\ forallb dim_ok (snd dd) = true /\
+  post (fun dd => fst dd = zlen (snd dd) /\ fst dd <= max_variant_array_dimensions /\ forallb dim_ok (snd dd) = true /\
                   (bit mask 6 = false -> snd dd = [])) (variant_dims_dec mask).
 Proof.
   intros mask. unfold variant_dims_dec. destruct (bit mask 6).
   - eapply post_bind; [apply (post_read_i 4); lia|]. intros dl Hdl.
-    destruct (dl <? 0) eqn:E0; [apply post_fail|]. apply Z.ltb_ge in E0.
+    destruct ((dl <? 0) || (max_variant_array_dimensions <? dl)) eqn:E0; [apply post_fail|].
+    apply orb_false_iff in E0. destruct E0 as [E0 Emd]. apply Z.ltb_ge in E0, Emd.
     eapply post_bind; [apply post_remaining|]. intros r Hr. cbv beta in Hr. unfold max_int32 in Hr.
     destruct (r / 4 <? dl) eqn:E1; [apply post_fail|]. apply Z.ltb_ge in E1.
     apply post_tick_bind. eapply post_bind; [apply post_dec_n; apply post_dec_dim|]. intros ds [HF Hl].
-    apply post_ret. cbn [fst snd]. split; [unfold zlen; lia|]. split; [unfold max_int32; lia|]. split; [|discriminate].
+    apply post_ret. cbn [fst snd]. split; [unfold zlen; lia|]. split; [exact Emd|]. split; [|discriminate].
     apply forallb_forall. intros d Hin. rewrite Forall_forall in HF. specialize (HF d Hin). unfold dim_ok.
     apply andb_true_intro. split; apply Z.leb_le; lia.
-  - apply post_ret. cbn [fst snd]. repeat split; try reflexivity. unfold max_int32. lia.
+  - apply post_ret. cbn [fst snd]. repeat split; try reflexivity. unfold max_variant_array_dimensions. lia.
 Qed.
 
 Section DecVariant.
@@ -435,6 +436,7 @@ Section DecVariant.
     eapply post_bind; [apply (post_read_i 4); lia|]. intros alen _.
     destruct (max_variant_array_length <? alen) eqn:Emax; [apply post_fail|]. apply Z.ltb_ge in Emax.
     destruct (alen <? -1) eqn:Emin; [apply post_fail|]. apply Z.ltb_ge in Emin.
+    eapply post_bind; [apply post_remaining|]. intros rem _. destruct (rem <? alen); [apply post_fail|].
     eapply post_bind.
     { instantiate (1 := fun vals => (alen = -1 -> vals = None) /\
                           (alen <> -1 -> exists l, vals = Some l /\ Forall (Pleaf tid) l /\ length l = Z.to_nat alen)).
@@ -576,14 +578,18 @@ Section DecMain.
       + cbn [rnorm_struct]. fold (rnorm_struct reg). rewrite Hn, Hns. reflexivity.
   Qed.
 
-  Theorem decode_wf : forall fuel t, desc_ok t = true -> post (Pv reg t) (decode reg fuel t).
+  Definition level_custom (rec : ty -> dec val) (allow : bool) (c : custom) : dec val :=
+    if nested c && negb allow then bind (tick (csize c)) (fun _ => fail EOther) else dec_custom reg rec c.
+
+  (* one nesting level of ua.decode, given the hand-written decoders of that level *)
+  Lemma level_wf : forall rec allow, (forall c, post (Pv reg (TCustom c)) (level_custom rec allow c)) ->
+    forall t, desc_ok t = true -> post (Pv reg t) (dec_level reg rec allow t).
   Proof.
-    induction fuel as [|f IHf]; intros t Ht; [intros bs x rest al _ E; discriminate|].
-    revert Ht. induction t using ty_ind'; intros Ht.
+    intros rec allow Hcust t. induction t using ty_ind'; intros Ht.
     - (* bool *)
-      cbn [decode]. eapply post_bind; [apply post_read_byte|]. intros b _. apply post_ret. split; [reflexivity|reflexivity].
+      cbn [dec_level]. eapply post_bind; [apply post_read_byte|]. intros b _. apply post_ret. split; [reflexivity|reflexivity].
     - (* int *)
-      cbn [decode desc_ok] in *.
+      cbn [dec_level desc_ok] in *.
       assert (Hw1 : (1 <= w)%nat) by (unfold width_ok in Ht; destruct w as [|w]; [discriminate|lia]).
       destruct s.
       + eapply post_bind; [apply (post_read_i w Hw1)|]. intros z Hz. apply post_ret. split; [|reflexivity].
@@ -591,7 +597,7 @@ Section DecMain.
       + eapply post_bind; [apply (post_read_u w)|]. intros z Hz. apply post_ret. split; [|reflexivity].
         change (rwf0 reg (TInt w false) (VInt z)) with (width_ok w && int_ok w false z). rewrite Ht. apply u_ok_intro. exact Hz.
     - (* float *)
-      cbn [decode desc_ok] in *.
+      cbn [dec_level desc_ok] in *.
       assert (Hw4 : (w = 4 \/ w = 8)%nat).
       { apply orb_true_iff in Ht. destruct Ht as [H|H]; apply Nat.eqb_eq in H; auto. }
       eapply post_bind; [apply (post_read_u w)|]. intros z Hz. apply post_ret. split.
@@ -601,12 +607,12 @@ Section DecMain.
       + change (rnorm reg (TFloat w) (VInt (canon_float w z))) with (VInt (canon_float w (canon_float w z))).
         rewrite canon_idem by exact Hw4. reflexivity.
     - (* string *)
-      cbn [decode]. eapply post_bind; [apply post_read_string|]. intros s Hs. apply post_ret. split; [exact Hs|reflexivity].
+      cbn [dec_level]. eapply post_bind; [apply post_read_string|]. intros s Hs. apply post_ret. split; [exact Hs|reflexivity].
     - (* time *)
-      cbn [decode]. eapply post_bind; [apply post_read_time|]. intros t [Ht' Hnt]. apply post_ret. split; [exact Ht'|].
+      cbn [dec_level]. eapply post_bind; [apply post_read_time|]. intros t [Ht' Hnt]. apply post_ret. split; [exact Ht'|].
       change (rnorm reg TTime (VTime t)) with (VTime (norm_time t)). rewrite Hnt. reflexivity.
     - (* []byte *)
-      cbn [decode]. unfold dec_bytes. eapply post_bind; [apply (post_read_u 4)|]. intros n Hn.
+      cbn [dec_level]. unfold dec_bytes. eapply post_bind; [apply (post_read_u 4)|]. intros n Hn.
       destruct (n =? null32); [apply post_ret; split; [reflexivity|reflexivity]|].
       destruct (max_int32 <? n) eqn:Emax; [apply post_fail|]. apply Z.ltb_ge in Emax.
       eapply post_bind; [apply post_remaining|]. intros r _. destruct (r <? n); [apply post_fail|].
@@ -614,8 +620,8 @@ Section DecMain.
       change (rwf0 reg TBytes (VBytes (Some d))) with (str_ok d). unfold str_ok. apply Z.leb_le. lia.
     - (* slice *)
       cbn [desc_ok] in Ht. apply andb_true in Ht. destruct Ht as [Hmin Ht].
-      change (decode reg (S f) (TSlice t)) with
-        (dec_slice (match t with TPtr x => 8 + tsize x | TCustom _ => 8 | _ => tsize t end)%N (decode reg (S f) t)).
+      change (dec_level reg rec allow (TSlice t)) with
+        (dec_slice (match t with TPtr x => 8 + tsize x | TCustom _ => 8 | _ => tsize t end)%N (dec_level reg rec allow t)).
       unfold dec_slice. eapply post_bind; [apply (post_read_u 4)|]. intros n Hn.
       destruct (n =? null32); [apply post_ret; split; [reflexivity|reflexivity]|].
       destruct (max_int32 <? n) eqn:Emax; [apply post_fail|]. apply Z.ltb_ge in Emax.
@@ -630,29 +636,42 @@ Section DecMain.
       + cbn [rnorm]. rewrite rnorm_list_map. f_equal. f_equal. rewrite Forall_forall in HF.
         rewrite <- (map_id l) at 2. apply map_ext_in. intros x Hx. apply (HF x Hx).
     - (* pointer *)
-      cbn [desc_ok] in Ht. change (decode reg (S f) (TPtr t)) with (dec_ptr t (decode reg (S f) t)).
+      cbn [desc_ok] in Ht. change (dec_level reg rec allow (TPtr t)) with (dec_ptr t (dec_level reg rec allow t)).
       unfold dec_ptr. destruct t; try apply post_panic;
         (apply post_tick_bind; eapply post_bind; [apply IHt; exact Ht|]; intros v [Hw Hn]; apply post_ret; split;
          [match goal with |- rwf0 _ (TPtr ?e) _ = true => change (ptr_elem_ok e && rwf0 reg e v = true) end; rewrite Hw; reflexivity
          |cbn [rnorm]; rewrite Hn; reflexivity]).
     - (* struct *)
       cbn [desc_ok] in Ht. rewrite forallb_forall in Ht.
-      change (decode reg (S f) (TStruct fs)) with
-        (bind (dec_fields (map (decode reg (S f)) fs)) (fun vs => ret (VStruct vs))).
+      change (dec_level reg rec allow (TStruct fs)) with
+        (bind (dec_fields (map (dec_level reg rec allow) fs)) (fun vs => ret (VStruct vs))).
       eapply post_bind.
       + apply post_fields. rewrite Forall_forall in *. intros t Hin. apply H; [exact Hin|apply Ht; exact Hin].
       + intros vs [Hw Hn]. apply post_ret. split; [exact Hw|].
         change (rnorm reg (TStruct fs) (VStruct vs)) with (VStruct (rnorm_struct reg fs vs)). rewrite Hn. reflexivity.
     - (* hand-written codecs *)
-      assert (Hrec : forall t, desc_ok t = true -> post (Pv reg t) (decode reg f t)) by (intros t; apply IHf).
-      destruct c; cbn [decode dec_custom].
-      + apply post_variant. exact Hrec.
-      + apply post_datavalue. apply Hrec. reflexivity.
-      + apply post_diag. exact Hrec.
-      + eapply post_weaken; [apply post_loctext|]. intros v Hv. destruct v; try discriminate. split; [exact Hv|reflexivity].
-      + eapply post_weaken; [apply post_nodeid|]. intros v [Hv Hn]. destruct v; try discriminate. split; [exact Hv|exact Hn].
-      + eapply post_weaken; [apply post_expnodeid|]. intros v [Hv [Hn _]]. destruct v; try discriminate. split; [exact Hv|exact Hn].
-      + apply post_extobj; [exact Hreg|exact Hrec].
-      + eapply post_weaken; [apply post_guid|]. intros v Hv. destruct v; try discriminate. split; [exact Hv|reflexivity].
+      exact (Hcust c).
+  Qed.
+
+  Lemma customs_wf : forall rec, (forall t, desc_ok t = true -> post (Pv reg t) (rec t)) ->
+    forall c, post (Pv reg (TCustom c)) (dec_custom reg rec c).
+  Proof.
+    intros rec Hrec c. destruct c; cbn [dec_custom].
+    + apply post_variant. exact Hrec.
+    + apply post_datavalue. apply Hrec. reflexivity.
+    + apply post_diag. exact Hrec.
+    + eapply post_weaken; [apply post_loctext|]. intros v Hv. destruct v; try discriminate. split; [exact Hv|reflexivity].
+    + eapply post_weaken; [apply post_nodeid|]. intros v [Hv Hn]. destruct v; try discriminate. split; [exact Hv|exact Hn].
+    + eapply post_weaken; [apply post_expnodeid|]. intros v [Hv [Hn _]]. destruct v; try discriminate. split; [exact Hv|exact Hn].
+    + apply post_extobj; [exact Hreg|exact Hrec].
+    + eapply post_weaken; [apply post_guid|]. intros v Hv. destruct v; try discriminate. split; [exact Hv|reflexivity].
+  Qed.
+
+  Theorem decode_wf : forall fuel t, desc_ok t = true -> post (Pv reg t) (decode reg fuel t).
+  Proof.
+    induction fuel as [|f IHf]; intros t Ht; cbn [decode].
+    - apply level_wf; [|exact Ht]. intros c. unfold level_custom. destruct c; cbn [nested andb negb];
+        try (apply post_tick_bind; apply post_fail); apply customs_wf; intros t' _; apply post_fail.
+    - apply level_wf; [|exact Ht]. intros c. unfold level_custom. rewrite andb_false_r. apply customs_wf. exact IHf.
   Qed.
 End DecMain.
